@@ -24,6 +24,8 @@ import (
 type c12Actor struct {
 	Kind  string `json:"kind"` // commit | cancel | split
 	Split int    `json:"split,omitempty"`
+	Batch int    `json:"batch,omitempty"` // commit: page size of its listings (0 = default)
+	Fault string `json:"fault,omitempty"` // the first read of a key containing this fails once
 	Err   string `json:"err,omitempty"`
 }
 
@@ -110,7 +112,13 @@ func c12Run(cs *c12Case, r *gen.Rand, replay bool) {
 	for i := range cs.Actors {
 		i := i
 		wa := *w
-		wa.WrapMeta = func(s storage.Store) storage.Store { return &memstore.Gated{Store: s, S: sched, Actor: i} }
+		flt := &memstore.Faults{}
+		if cs.Actors[i].Fault != "" {
+			flt.Rules = []*memstore.FaultRule{{Op: "get", Substr: cs.Actors[i].Fault, Times: 1}}
+		}
+		wa.WrapMeta = func(s storage.Store) storage.Store {
+			return &memstore.Gated{Store: &memstore.Flaky{Store: s, F: flt}, S: sched, Actor: i}
+		}
 		wa.WrapVMeta = wa.WrapMeta
 		st := wa.Stores()
 		wg.Add(1)
@@ -121,7 +129,11 @@ func c12Run(cs *c12Case, r *gen.Rand, replay bool) {
 			switch cs.Actors[i].Kind {
 			case "commit":
 				d := core.NewDiamond("repo", st, core.DiamondDescriptor(model.NewDiamondDescriptor(model.DiamondID(did))), core.DiamondLogger(world.Nop))
-				err = d.Commit()
+				if cs.Actors[i].Batch > 0 {
+					err = d.Commit(core.BatchSize(cs.Actors[i].Batch))
+				} else {
+					err = d.Commit()
+				}
 				mu.Lock()
 				if d.BundleID != "" {
 					commitBundle[d.BundleID] = i
@@ -147,12 +159,15 @@ func c12Run(cs *c12Case, r *gen.Rand, replay bool) {
 				mu.Lock()
 				cs.Actors[i].Err = err.Error()
 				mu.Unlock()
+				if strings.Contains(err.Error(), "injected transient") {
+					sched.MarkCrashed(i) // a failed read ends the actor like a crash does
+				}
 			}
 		}()
 	}
 	pos := 0
 	var made []int
-	err := sched.Run(func(waiting []int, classes []string) (int, bool) {
+	runErr := sched.Run(func(waiting []int, classes []string) (int, bool) {
 		var d int
 		if replay && pos < len(cs.Decisions) {
 			d = cs.Decisions[pos]
@@ -182,10 +197,10 @@ func c12Run(cs *c12Case, r *gen.Rand, replay bool) {
 		made = append(made, d)
 		return waiting[idx], crash
 	})
-	wg.Wait()
-	if err != nil {
-		panic(err)
+	if runErr != nil {
+		panic(runErr)
 	}
+	wg.Wait()
 	cs.Decisions = made
 	cs.Events = sched.Trace
 	// final state, seen by a fresh process
@@ -330,7 +345,7 @@ func init() {
 		c.CaseTy = "dcase"
 		c.Report = "report"
 		c.PerFile = 25
-		c.Rule = "one diamond with 1..3 commits (retries included), 0..1 cancellation and 1..4 split runs over 1..2 split ids (reruns of one id included), all started together and interleaved by a scheduler at every decision-relevant store access (read of the diamond state, read of the split state, listing of splits, each create-if-absent write), with a crash of the scheduled actor at one in 14 decisions; the final store is read by a fresh process; non-trivial = schedule in which at least one commit wrote a bundle or was refused, distinct by actors and decisions"
+		c.Rule = "one diamond with 1..3 commits (retries included), 0..1 cancellation and 1..4 split runs over 1..2 split ids (reruns of one id included), all started together and interleaved by a scheduler at every decision-relevant store access (read of the diamond state, read of the split state, listing of splits, each create-if-absent write), with a crash of the scheduled actor at one in 14 decisions, commits listing with page sizes 1, 2, 3, 5 or the default, and one actor in five meeting a failed read of the diamond's or a split's final descriptor; the final store is read by a fresh process; non-trivial = schedule in which at least one commit wrote a bundle or was refused, distinct by actors and decisions"
 		emit := func(cs *c12Case) {
 			key := ""
 			for _, e := range cs.Events {
@@ -383,7 +398,7 @@ func init() {
 				cs.Actors = append(cs.Actors, c12Actor{Kind: "split", Split: r.Intn(2)})
 			}
 			for j := 0; j < r.Range(1, 3); j++ {
-				cs.Actors = append(cs.Actors, c12Actor{Kind: "commit"})
+				cs.Actors = append(cs.Actors, c12Actor{Kind: "commit", Batch: []int{0, 1, 2, 3, 5}[r.Intn(5)]})
 			}
 			if r.Chance(1, 3) {
 				cs.Actors = append(cs.Actors, c12Actor{Kind: "cancel"})
@@ -395,6 +410,16 @@ func init() {
 				as[x] = cs.Actors[y]
 			}
 			cs.Actors = as
+			for x := range cs.Actors {
+				if r.Chance(1, 5) {
+					cs.Actors[x].Fault = "diamond-done.yaml"
+					if cs.Actors[x].Kind == "split" && r.Bool() {
+						// (a failed read inside a commit's listing of splits never returns: the listing workers
+						// block on their output channel once the consumer has given up - not exercised here)
+						cs.Actors[x].Fault = "split-done.yaml"
+					}
+				}
+			}
 			c12Run(cs, r, false)
 			emit(cs)
 		}
